@@ -104,18 +104,19 @@ def _neg_form(t):
     return None
 
 
-def norm_sums(t, cache):
+def norm_sums(t, cache, products=False):
     """AddWithCarry(x, NOT(y), 1) leaves x + ~y + 1 behind; inside a sum ~u is rewritten to -1 - u (the same value), so
     that a subtraction has the same polynomial form as the reference's x - y"""
     k = t.get_id()
     if k in cache:
-        return cache[k]
+        return cache[k][1]
     if not z3.is_app(t) or t.num_args() == 0:
-        cache[k] = t
+        cache[k] = (t, t)         # the key term is kept alive: z3 recycles ids of freed terms
         return t
-    kids = [norm_sums(c, cache) for c in t.children()]
+    kids = [norm_sums(c, cache, products) for c in t.children()]
     changed = any(a is not c for a, c in zip(kids, t.children()))
-    if z3.is_app_of(t, z3.Z3_OP_BADD):
+    arith = z3.is_app_of(t, z3.Z3_OP_BADD) or (products and z3.is_app_of(t, z3.Z3_OP_BMUL))
+    if arith:
         new = []
         for c in kids:
             n = _neg_form(c)
@@ -126,15 +127,23 @@ def norm_sums(t, cache):
         kids = new
     r = t
     if changed:
-        if z3.is_app_of(t, z3.Z3_OP_BADD):
+        if arith:
             r = kids[0]
             for c in kids[1:]:
-                r = r + c
+                r = (r + c) if z3.is_app_of(t, z3.Z3_OP_BADD) else (r * c)
             r = z3.simplify(r)
         else:
             r = t.decl()(*kids)
-    cache[k] = r
+    cache[k] = (t, r)
     return r
+
+
+def canon(t):
+    """the same value with every ~u that is an operand of + or * written as -1 - u (applied to BOTH sides of a
+    comparison: a back end may compute ~x as -x - 1, a product of such terms is beyond the solver otherwise)"""
+    if not z3.is_expr(t):
+        return t
+    return z3.simplify(norm_sums(z3.simplify(t), {}, True))
 
 
 def emulate(b, o, x, flags, mem, on_ext, max_steps, wild=None, allowed=(), helper_bound=None):
